@@ -18,9 +18,12 @@ PROP = dict(
     level_note="The walk first demands the exact answers of the code model (alternative 'exact'); only if the code departs from it is it compared with the alternative 'loose', in which IsAlive/IsReady may be anything the C30 statement allows (+-1 tick slack; readiness open while a subsystem is dead) - VIOLATION only if neither fits. Readings: an unreported subsystem must not be reported dead within timeout-tick of its registration; ready must be TRUE when all the listed conditions hold and every subsystem is punctual. Exhaustive only within the bound (2 subsystems, the listed timeouts, saturating silence counters); /alive and /ready HTTP/gRPC endpoints of route.go are not driven (they call the same Reporter methods); the barrier relies on Health.ticker re-evaluating tick.Chan() per loop iteration (otherwise the check reports cannot-decide, not a violation); clockwork's fake ticker is trusted.",
     assumptions=["clockwork.FakeClock/fake ticker is faithful", "bounded: 2 subsystems, timeouts from a small set, time on a 100/250 ms grid",
                  "a tick is processed by the ticker goroutine before the clock moves on (calls at the same instant may come before or after it)"],
-    stages=[_walk("Health", "_g250", {"quick": 40, "thorough": 90}, quick=True, quick_suffix=""),   # 250 ms grid, a 750|1250 ms, b 1250 ms (thorough: both 750|1250 ms)
+    stages=[_walk("Health", "_g250", {"quick": 60, "thorough": 120}, quick=True, quick_suffix=""),   # 250 ms grid, a 750|1250 ms, b 1250 ms (thorough: both 750|1250 ms)
             _walk("Health100a", "_g100a", 150),   # thorough only: 100 ms grid, a 600 ms, b 1200 ms
             _walk("Health100b", "_g100b", 150),   # thorough only: 100 ms grid, a 300 ms (< tick), b 1700 ms
+            # concurrent callers, -race build; oracle = linearizability against Health.tla (TLC validates the call/return history)
+            dict(kind="trace", name="HealthConc", module="TraceHealth", cfg=["TraceHealth.cfg", "TraceHealth_loose.cfg"], pkg="internal/health",
+                 test="TestVerifC30HealthConc", harness=["internal/health/c30_health_test.go", "internal/health/c30_healthconc_test.go"], race=True),
             dict(kind="tlc", name="HealthMC", module="Health", cfg={"quick": None, "thorough": "MC_Health_mc.cfg"}, workers=8),
             dict(kind="tlc", name="HealthMC3", module="Health", cfg={"quick": None, "thorough": "MC_Health_mc3.cfg"}, workers=8)],
 )
